@@ -87,6 +87,12 @@ class StmtMixin:
             v = self.new_list(IntListP(z3.Array(n, z3.IntSort(), z3.IntSort()), z3.IntVal(0), "int" if ann == "list[int]" else "atom"), n)
             self.assign(st.target, v, fr, st)
             return
+        if isinstance(st.value, ast.List) and not st.value.elts and ann == "list[Token]":
+            # a local list that collects token records
+            n = self.new_ref(ast.unparse(st.target).replace(".", "_"))
+            fields = {f: z3.Array(f"{n}.{f}", z3.IntSort(), z3.BoolSort() if fty == "bool" else z3.IntSort()) for f, fty in SCHEMA["TokenA"].items()}
+            self.assign(st.target, self.new_list(RecListP(z3.IntVal(0), "TokenA", fields), n), fr, st)
+            return
         if isinstance(st.value, ast.Dict) and not st.value.keys and ann.startswith("dict[str, list["):
             ref = self.new_ref(ast.unparse(st.target).replace(".", "_"))
             self.payload[ref] = MapSeqP(z3.K(z3.IntSort(), z3.BoolVal(False)), z3.K(z3.IntSort(), z3.Empty(SEQ)))
